@@ -7,11 +7,11 @@
 // ("x616263" = "abc", "x" = "", "-" = NULL pointer).
 //
 //   load   FILE                         interrogate_request_database(FILE)
-//   module LIB HASH MOD DBFILE IDENT FIRST NEXT NFPTRS NUNIQ [NAME OFFSET]...
+//   module LIB HASH MOD DBFILE IDENT FIRST NEXT NFPTRS NUNIQ [NAME OFFSET]... [!N]...
 //                                       interrogate_request_module() with a synthetic InterrogateModuleDef;
 //                                       fptrs[i] = (void*)(0x100000*(k+1) + 16*i) for the k-th module (k from 0),
-//                                       an OFFSET token written as "!<n>" makes fptrs[n] NULL instead
-//                                       -> "M k first_index next_index"
+//                                       each trailing "!<n>" token makes fptrs[n] NULL instead
+//                                       -> "M k first_index next_index" (the range the library assigned)
 //   force                               force the lazy load (interrogate_number_of_types) -> "E <error flag>"
 //   err                                 -> "E <error flag>"
 //   next                                -> "N <next index>"   (NOTE: consumes one index, as the library's accessor does)
@@ -32,6 +32,8 @@
 //
 // VALUE: decimal int | "s:<hex>" string | "n" NULL | "p:<hex>" pointer | "v" void.
 // With --trace every call is announced by a flushed "B ..." line first, so a crash is attributable.
+// Build through vf/gen/ifacegen.idbdrive_path(): it generates idbdrive_table.inc (one line per function declared in
+// interrogate_interface.h of the tree under test) and compiles with -fno-access-control (probe resets the singleton).
 #include "interrogate_interface.h"
 #include "interrogate_request.h"
 #include "interrogateDatabase.h"
